@@ -161,10 +161,12 @@ def judge(acc, text, want, rep, tag, case_extra):
 
 def shard_shapes(p):
     acc = Acc()
+    if str(p.get("shard", "0"))[-1] in "37":
+        acc.context = {"trace_logging": True}
     exact.MAX_BITS, exact.MAX_EXP = 2500, 160     # keep the tool's repeated-multiplication power loop cheap
     rng = rng_for(p["seed"], PID, "shapes", p["shard"])
     work = p["work"]          # list of (ops string)
-    d = Driver(p["bin"])
+    d = Driver(p["bin"], env={"RUST_LOG": "anything=trace"} if str(p.get("shard", "0"))[-1] in "37" else None)      # every fourth shard: trace logging enabled
     try:
         for ops in work:
             n = len(ops)
@@ -341,9 +343,11 @@ def ev_calls(t):
 
 def shard_misc(p):
     acc = Acc()
+    if str(p.get("shard", "0"))[-1] in "37":
+        acc.context = {"trace_logging": True}
     exact.MAX_BITS, exact.MAX_EXP = 6000, 160
     rng = rng_for(p["seed"], PID, "misc", p["shard"])
-    d = Driver(p["bin"])
+    d = Driver(p["bin"], env={"RUST_LOG": "anything=trace"} if str(p.get("shard", "0"))[-1] in "37" else None)      # every fourth shard: trace logging enabled
     try:
         reqs, meta = [], []
         for _ in range(p["n_to"]):
@@ -451,6 +455,28 @@ def shard_misc(p):
                     text = layout(tk, rng, mode)
                     reqs.append({"op": "query", "q": text})
                     meta.append(("random:" + style + ":" + mode, text, v, nops))
+        for _ in range(p.get("n_huge", 3)):
+            # ONE gap (or the front / the end) filled with 2^16 -1/+0/+1 ... blanks: "the number of blanks does not matter" also past
+            # whatever width a token length is stored in (seed C06-h)
+            e = exact.gen_tree(rng, 2, max_digits=3, max_exp=0, ops="+-*/")
+            try:
+                v = exact.ev(e)
+            except Exception:
+                continue
+            text = layout(tokens(e, "min"), rng, "single")
+            L = rng.choice([65535, 65536, 65537, 65536, 70000, 131072])
+            gaps = [i for i, ch in enumerate(text) if ch == " "]
+            where = rng.choice(["gap", "gap", "lead", "trail"]) if gaps else "lead"
+            fill = rng.choice([" ", " ", "\t"]) * L
+            if where == "gap":
+                g = rng.choice(gaps)
+                text = text[:g] + fill + text[g + 1:]
+            elif where == "lead":
+                text = fill + text
+            else:
+                text = text + fill
+            reqs.append({"op": "query", "q": text})
+            meta.append(("hugeblank:" + where, text, v, 2))
         for i in range(0, len(reqs), 4000):
             try:
                 reps = d.call_many(reqs[i:i + 4000], timeout=300)
@@ -503,6 +529,7 @@ def run(tier, seed):
 def replay(path):
     v = json.load(open(path))
     c = v["case"]
-    with Driver(build.build(c.get("build", "dbg"))["vdriver"]) as d:
+    from core.driver import replay_env
+    with Driver(build.build(c.get("build", "dbg"))["vdriver"], env=replay_env(c)) as d:
         print(json.dumps({"query": c["query"], "expected": c["expected"], "now": d.call({"op": "query", "q": c["query"]}).get("items")}, ensure_ascii=False))
     return 0
